@@ -191,9 +191,36 @@ impl Prop for C19 {
             2 => format!("GOSUB {}", target),
             _ => "RUN".to_string(),
         };
+        // sometimes the program has a token-level error as well, in a line of its own behind everything else
+        let mut lines = lines;
+        let mut two_kinds = false;
+        if what != "token-damage" && rng.chance(1, 4) {
+            let top = lines.iter().filter_map(|l| l.split(' ').next().and_then(|n| n.parse::<u32>().ok())).max().unwrap_or(0);
+            if top < 65_000 {
+                lines.push(format!("{} PRINT )", top + 7));
+                // (while a line does not parse, the link-time diagnostics are not shown: only "some
+                // diagnostic, nothing runs, ranges inside the listed text" is asked of such a program)
+                two_kinds = true;
+            }
+        }
         let text = format!("{}\n{}", lines.join("\n"), cmd);
         mon::journal(&text);
         let mut s = typed(&lines);
+        if rng.chance(1, 3) {
+            // the first direct statement after typing the program does not enter it: it simply works
+            let (_, ev0) = run(&mut s, "PRINT 7*6");
+            ctx.count("direct_statements_before_the_run");
+            let ok = ev0.iter().any(|e| matches!(e, Ev::Print(p) if p.contains("42"))) && !ev0.iter().any(|e| matches!(e, Ev::Error(..)));
+            if !ok {
+                ctx.violation(
+                    "direct-blocked",
+                    "diag:direct-first",
+                    &format!("`PRINT 7*6` typed right after the faulty program gave {:?} (expected 42 and no error)", ev0),
+                    &format!("{}\nPRINT 7*6", lines.join("\n")),
+                );
+                return;
+            }
+        }
         // the front end may hand out the instruction budget in any slices: the gate must hold for each
         s.quantum = *rng.pick(&[1usize, 1, 2, 3, 4, 5, 7, 12, 5000, 5000, 5000, 5000]);
         let text = format!("{}\n(execute({}) slices)", text, s.quantum);
@@ -242,7 +269,7 @@ impl Prop for C19 {
             );
             return;
         }
-        let mut matched = expect_text.is_none();
+        let mut matched = expect_text.is_none() || two_kinds;
         for (d, l, col) in &errors {
             let name = error_name(d);
             let ln = match l {
